@@ -6,7 +6,7 @@
 //! base schemas at every applicable site, labelled with its rule and confirmed by R-VALID-TS
 //! -> at least one diagnostic.
 
-use crate::explore::{Chooser, DistinctSet, ExploreCfg, explore, fnv};
+use crate::explore::{par_for, Chooser, DistinctSet, ExploreCfg, explore, fnv};
 use crate::gql::*;
 use crate::pipeline;
 use crate::render::ts_text;
@@ -149,7 +149,7 @@ pub fn gen_valid(c: &mut Chooser) -> Case {
         dirs_at(&mut doc, site).push(d);
     }
     // 2. structural additions
-    match c.choose("add", 14) {
+    match c.choose("add", 15) {
         0 => {}
         1 => doc.defs[2].fields.push(fld("extra", Ty::list(Ty::list(Ty::nn(Ty::named("Int")))))),
         2 => doc.defs[5].fields.push(FieldDef { args: Some(vec![ivd("a", Ty::nn(Ty::list(Ty::named("Kind"))), Some(Value::List(P::default(), vec![Value::Enum(P::default(), "A".into())])))]), ..fld("withArgs", Ty::named("Result")) }),
@@ -230,6 +230,27 @@ pub fn gen_valid(c: &mut Chooser) -> Case {
                     f.desc = Some((P::default(), "f".into()));
                 }
             }
+        }
+        13 => {
+            // one name in several namespaces: types named like directives that are applied (built-in and
+            // custom ones), a directive named like a type, a field named like its type, an enum value named
+            // like a type, an argument named like its field
+            let mut e = TsDef::new(TsKind::Enum, Some("deprecated"));
+            e.values = vec![EnumValDef { desc: None, name: nm("YES"), dirs: vec![] }, EnumValDef { desc: None, name: nm("User"), dirs: vec![dir("deprecated", vec![])] }];
+            doc.defs.push(e);
+            doc.defs.push(TsDef::new(TsKind::Scalar, Some("all")));
+            let mut sb = TsDef::new(TsKind::Scalar, Some("specifiedBy"));
+            sb.dirs = vec![dir("specifiedBy", vec![("url", s("https://example.com/s"))])];
+            doc.defs.push(sb);
+            let mut i = TsDef::new(TsKind::Input, Some("skip"));
+            i.input_fields = vec![InputValueDef { dirs: vec![dir("deprecated", vec![])], ..ivd("include", Ty::named("deprecated"), None) }];
+            doc.defs.push(i);
+            let mut d = TsDef::new(TsKind::Directive, Some("User"));
+            d.locations = vec![nm("FIELD_DEFINITION")];
+            doc.defs.push(d);
+            doc.defs[6].fields.push(FieldDef { dirs: vec![dir("deprecated", vec![]), dir("User", vec![])], args: Some(vec![ivd("Post", Ty::named("skip"), None)]), ..fld("Post", Ty::named("Post")) });
+            doc.defs[6].fields.push(fld("all", Ty::named("all")));
+            tags.push("names-shared-across-namespaces".into());
         }
         12 => {
             // a valid extension of a built-in scalar
@@ -663,6 +684,21 @@ pub fn mutants(base: &TsDoc) -> Vec<(&'static str, String, TsDoc)> {
     out
 }
 
+/// the verdict of the real `nitrogql-cli check` on the files as a project (exit status, stdout)
+fn run_cli_check(files: &[String]) -> (Option<i32>, String) {
+    use crate::cli;
+    let mut p = cli::Project::default();
+    for (i, f) in files.iter().enumerate() {
+        p.files.insert(format!("schema/f{i}.graphql"), f.clone());
+    }
+    p.files.insert("graphql.config.yaml".into(), "schema: ./schema/*.graphql\n".into());
+    let dir = cli::thread_dir("c05");
+    cli::materialize(&dir, &p);
+    let a: Vec<String> = ["--config-file", "graphql.config.yaml", "--output-format", "json", "check"].iter().map(|x| x.to_string()).collect();
+    let r = cli::run(&dir, &a, &[], Duration::from_secs(60));
+    (if r.timed_out { None } else { r.code }, r.stdout)
+}
+
 fn run_subject(files: &[String]) -> Result<Result<(), Vec<pipeline::Diag>>, crate::util::Panic> {
     catch(|| match pipeline::parse_schema_files(files) {
         Err(f) => Err(f.diags),
@@ -681,6 +717,8 @@ pub fn run(args: &Args) -> i32 {
     let gen_invalid = AtomicU64::new(0);
     let distinct = DistinctSet::new();
     let gen_invalid_rules: Mutex<BTreeMap<String, u64>> = Mutex::new(BTreeMap::new());
+    let cli_runs = AtomicU64::new(0);
+    let cli_dev = if args.quick() { 2 } else { 3 };
     // ---------- valid direction
     let stats = explore(
         &ExploreCfg { max_dev: if args.quick() { 3 } else { 4 }, threads: args.threads, budget: Duration::from_secs(if args.quick() { 40 } else { 2400 }) },
@@ -703,6 +741,16 @@ pub fn run(args: &Args) -> i32 {
             }
             valid_checked.fetch_add(1, Ordering::Relaxed);
             let case_json = || json!({"direction": "valid", "files": texts, "tags": case.tags, "picks": c.picks()});
+            // the same verdict through the real binary (which appends the built-in definitions itself)
+            if c.deviations() <= cli_dev {
+                cli_runs.fetch_add(1, Ordering::Relaxed);
+                let (code, out) = run_cli_check(&texts);
+                if code != Some(0) {
+                    let first = serde_json::from_str::<J>(out.trim()).ok().map(|d| format!("{} {}", d["check"]["errors"][0]["message"].as_str().unwrap_or(""), d["error"]["message"].as_str().unwrap_or(""))).unwrap_or_default();
+                    let tag = case.tags.iter().find(|t| !t.starts_with('@') && !t.starts_with("split")).cloned().unwrap_or_default();
+                    rep.report(Violation { key: format!("cli.rejects_valid[{tag}]"), what: format!("`nitrogql-cli check` exits with {code:?} on a valid schema: {}", crate::cli::strip_ansi(&first).chars().take(300).collect::<String>()), case: case_json() });
+                }
+            }
             match run_subject(&texts) {
                 Err(p) => rep.report(Violation { key: format!("panic@{}", p.key()), what: format!("panic at {}: {}", p.site, p.msg), case: case_json() }),
                 Ok(Ok(())) => {}
@@ -747,6 +795,7 @@ pub fn run(args: &Args) -> i32 {
     let mut confirmed = 0u64;
     let mut unconfirmed: BTreeMap<String, u64> = BTreeMap::new();
     let mut per_rule: BTreeMap<&'static str, u64> = BTreeMap::new();
+    let mut cli_jobs: Vec<(&'static str, String, Vec<String>)> = vec![];
     for (bi, b) in bases.iter().enumerate() {
         if !valid_ts::validate(b).is_empty() {
             crate::report::machinery(&format!("C05 base {bi} is not valid: {:?}", valid_ts::validate(b)));
@@ -770,6 +819,7 @@ pub fn run(args: &Args) -> i32 {
             for files in [vec![text.clone()], two] {
                 evals.fetch_add(1, Ordering::Relaxed);
                 let case_json = || json!({"direction": "invalid", "rule": label, "site": site, "files": files, "reference_findings": findings.iter().map(|f| format!("{}: {}", f.rule, f.detail)).collect::<Vec<_>>()});
+                cli_jobs.push((label, site.clone(), files.clone()));
                 match run_subject(&files) {
                     Err(p) => rep.report(Violation { key: format!("panic@{}", p.key()), what: format!("panic at {}: {}", p.site, p.msg), case: case_json() }),
                     Ok(Ok(())) => rep.report(Violation {
@@ -790,6 +840,20 @@ pub fn run(args: &Args) -> i32 {
             }
         }
     }
+    // every confirmed mutant through the real binary too
+    par_for(cli_jobs.len(), args.threads, |i| {
+        let (label, site, files) = &cli_jobs[i];
+        cli_runs.fetch_add(1, Ordering::Relaxed);
+        let (code, out) = run_cli_check(files);
+        if code != Some(1) {
+            rep.report(Violation {
+                key: format!("cli.accepts_invalid:{label}[{}]", site_class(site)),
+                what: format!("`nitrogql-cli check` exits with {code:?} on a schema violating {label} ({site})"),
+                case: json!({"direction": "invalid", "rule": label, "site": site, "files": files, "stdout": out.chars().take(2000).collect::<String>()}),
+            });
+        }
+    });
+    crate::cli::cleanup("c05");
     if !unconfirmed.is_empty() {
         rep.report(Violation {
             key: "machinery.mutant_not_confirmed".into(),
@@ -807,6 +871,7 @@ pub fn run(args: &Args) -> i32 {
         "rule": "valid direction: E1 variations of the base schema confirmed valid by R-VALID-TS (others are dropped and counted); invalid direction: every single-fault mutant at every applicable site, confirmed by R-VALID-TS for its rule, as one file and as two files; non-trivial = confirmed valid schemas + confirmed mutants",
         "exhaustive": true,
         "valid_direction": {"explorer": stats_json(&stats), "confirmed_valid_and_checked": valid_checked.load(Ordering::Relaxed), "generated_but_invalid_per_reference": gen_invalid.load(Ordering::Relaxed), "dropped_by_rule": *gen_invalid_rules.lock().unwrap()},
+        "through_the_cli": {"runs_of_nitrogql_cli_check": cli_runs.load(Ordering::Relaxed), "valid_direction_up_to_deviations": cli_dev, "invalid_direction": "every confirmed mutant, as one file and as two"},
         "invalid_direction": {"bases": bases.len(), "mutants": mut_total, "confirmed_and_demanded": confirmed, "per_rule": per_rule},
         "samples": [
             {"valid": ts_text(&gen_valid(&mut Chooser::new(&crate::explore::Dev::default())).files[0])[..400.min(ts_text(&base()).len())].to_string()},
@@ -818,6 +883,7 @@ pub fn run(args: &Args) -> i32 {
         vec![
             "R-VALID-TS (spec §3) decides validity and confirms every mutant's label".into(),
             "rejected = at least one diagnostic other than the checker's internal 'Type system error'".into(),
+            "the same verdicts are demanded of `nitrogql-cli check` on the files as a project (valid variations up to a smaller deviation bound, every mutant): the CLI assembles the document the checker sees".into(),
             "rules outside the statement's list (cross-kind duplicate names, empty objects, default value types, input cycles, root type rules) are not demanded".into(),
         ],
     )
